@@ -24,7 +24,7 @@ RULE = ('cases = command field (all 23) x data set absent/present (sizes around 
         'decoder still receiving until the PDV R-dimse designates, then exactly one message of '
         'the right class, context, command set and data bytes; non-trivial = >= 2 fragments; '
         'distinct = distinct (code, sizes, composition, mode, state)'
-        '; duplex (outgoing generator messages handed over before each incoming PDU) and rival (a second thread receiving file-backed instances under pre-emption) cases; 30 % of data-set flags other than 0001H')
+        '; duplex (outgoing generator messages handed over before each incoming PDU) and rival (a second thread receiving file-backed instances under pre-emption) cases; 30 % of data-set flags other than 0001H; assoc_layer family: file-backed C-STORE sent the moment the A-ASSOCIATE-AC of the real accepting layer has been read, under pre-emption')
 ASSUMPTIONS = ['R-dimse completion rule: last command fragment if Command Data Set Type = 0101H, '
                'else last data fragment', 'pydicom is not used by the oracle: the Part-10 meta '
                'header is read by a small explicit-VR-LE reader written for the check',
@@ -225,7 +225,35 @@ def _behind_ac(case):
         world.close()
 
 
+_p1_cases = cases
+
+
+def cases(tier, seed):      # noqa: F811
+    # the real accepting association layer in front of the decoder: 2-3 requestors each send a
+    # C-STORE that is received into a file the moment they have read the A-ASSOCIATE-AC, with
+    # line-level pre-emption (and parking) in the accepting code - the decoder needs the
+    # negotiated context at the last command fragment (C09's hot scenario, run here for the
+    # file-backed reception clause)
+    rh = random.Random('c07h/%d' % seed)
+    for i in range(40 if tier == 'quick' else 2000):
+        reqs = []
+        for _ in range(rh.choice([2, 3])):
+            ids = rh.sample(range(1, 64, 2), rh.choice([1, 2, 4]))
+            reqs.append([[pid, rh.randrange(2), [0, 1]] for pid in ids])
+        yield dict(assoc_layer=True, code=0x0001, seed=seed * 100291 + i, inner=dict(
+            hot=True, served=None, sup=[0, 1], reqs=reqs, ctx=reqs[0],
+            seed=seed * 100291 + i))
+    for c in _p1_cases(tier, seed):
+        yield c
+
+
 def run_case(case):
+    if case.get('assoc_layer'):
+        from . import c09
+        r = c09._hot_case(dict(case['inner'], served=[c09.S1, c09.S2]))
+        for v_ in r.get('violations', []):
+            v_['sig'] = 'C07 behind-the-accepting-layer ' + v_['sig'].replace('C09 ', '')
+        return r
     if case.get('behind_ac'):
         return _behind_ac(case)
     rnd = random.Random('c07r/%s/%s' % (case['seed'], case['code']))
